@@ -318,12 +318,12 @@ theorem fieldThunk_li_false {s s2 : St} {o li : Nat} {ob ob2 : Obj} {start : Nat
 /-- a field without an environment of its own sits in a layer with a base environment -/
 theorem fieldThunk_base {s : St} {o li : Nat} {ob : Obj} {start : Nat} {name : String} {f : Field}
     (hfind : findField ob start name = some (li, f)) (hob : s.objs[o]? = some ob) (hI : Inv s)
-    (hb : f.baseEnv = none) {ob' : Obj} {layer' : Layer} (h2 : ob'.layers[li]? = some layer')
-    (h1 : s.objs[o]? = some ob') : layer'.baseEnv.isSome = true := by
+    (hb : f.baseEnv = none) {ep : Expr × Bool} (he : f.expr = some ep) {ob' : Obj} {layer' : Layer}
+    (h2 : ob'.layers[li]? = some layer') (h1 : s.objs[o]? = some ob') : layer'.baseEnv.isSome = true := by
   rw [hob] at h1; cases h1
   obtain ⟨layer, hl, hf⟩ := findField_some hfind
   obtain rfl : layer = layer' := by rw [hl] at h2; exact Option.some.inj h2
-  exact (hI.shape o ob hob layer (mem_of_getElem? hl)).fieldBase f hf hb
+  exact (hI.shape o ob hob layer (mem_of_getElem? hl)).fieldBase f hf hb (by rw [he]; rfl)
 
 /-- a field without thunk has an expression -/
 theorem fieldThunk_expr {s : St} {o li : Nat} {ob : Obj} {start : Nat} {name : String} {f : Field}
@@ -333,7 +333,9 @@ theorem fieldThunk_expr {s : St} {o li : Nat} {ob : Obj} {start : Nat} {name : S
   exact Option.isSome_iff_exists.1 ((hI.shape o ob hob layer (mem_of_getElem? hl)).fieldExpr f hf ht)
 
 theorem fieldThunk_spec (s : St) (o : OId) (start : Nat) (name : String) (hI : Inv s) :
-    ⦃fun st => ⌜st = s⌝⦄ fieldThunk o start name ⦃Q s (fun _ _ => True)⦄ := by
+    ⦃fun st => ⌜st = s⌝⦄ fieldThunk o start name
+      ⦃Q s (fun r _ => ∀ ob, s.objs[o]? = some ob → (findField ob start name).isSome = true →
+        r.isSome = true)⦄ := by
   have h1 := getObj_spec
   have h2 := initObjectEnv_spec
   have h3 := layerEnv_spec
@@ -359,9 +361,13 @@ theorem fieldThunk_spec (s : St) (o : OId) (start : Nat) (name : String) (hI : I
         (by intro f; split <;> simp)
     | exact fieldThunk_close_static (by assumption) (by assumption) (by assumption) (by assumption)
         (by intro f; simp only [staticField]; split <;> rfl)
-    | (refine ⟨by schain, by assumption, trivial⟩)
+    | (refine ⟨by schain, by assumption, fun _ _ _ => rfl⟩)
+    | (refine ⟨S.refl _, hI, ?_⟩
+       intro ob hob hs
+       grind)
     | exact fieldThunk_li (by assumption) (by assumption) (S.refl _) (by assumption)
     | exact fieldThunk_base (by assumption) (by assumption) hI (by assumption) (by assumption) (by assumption)
+        (by assumption)
     | (exfalso
        obtain ⟨ep, hep⟩ := fieldThunk_expr (by assumption) (by assumption) hI (by assumption)
        rename_i hn
